@@ -3,6 +3,7 @@
 
 from collections import OrderedDict
 import logging
+import operator
 import os
 import numpy as np
 import struct
@@ -171,6 +172,12 @@ class TdmsReader(object):
         self._ensure_open()
         if self._segments is None:
             raise RuntimeError("Cannot read data unless metadata has first been read")
+
+        # Use Python integers for the position arithmetic below, fixed width
+        # numpy integers can overflow when combined with large value counts
+        offset = operator.index(offset)
+        if length is not None:
+            length = operator.index(length)
 
         try:
             (first_segment, segment_offsets) = self._segment_channel_offsets[channel_path]
